@@ -799,11 +799,19 @@ def run(ctx):
     cases = cached_tlc(ctx, "c07_exhaustive", "exhaustive", consts, produce)
     phases["tlc_exhaustive_and_parse_s"] = round(time.time() - t0, 1)
     if not ctx.quick:
-        simconsts = {"MaxUnits": 6, "MaxSeqs": 3, "Cross": True, "simulate": 1500, "depth": 30}
+        # measured: a walk costs 5-10 s without the cross alphabet and about a minute with it (every step enumerates
+        # all successors), so the walks are few: 150 of up to 5 units x 3 sequences, 8 with the full cross alphabet
+        simconsts = {"walks": [{"MaxUnits": 5, "MaxSeqs": 3, "Cross": False, "simulate": 150, "depth": 20}, {"MaxUnits": 6, "MaxSeqs": 3, "Cross": True, "simulate": 8, "depth": 30}]}
 
         def produce_sim():
-            simcfg = cfg.replace("MaxUnits = 3", "MaxUnits = 6").replace("MaxSeqs = 2", "MaxSeqs = 3").replace("Cross = FALSE", "Cross = TRUE")
-            sim = tlc.run("Autofill", simcfg, simulate=500, depth=30, seed=ctx.seed, workers=1, timeout=5400)
+            sim, out = None, []
+            for w in simconsts["walks"]:
+                simcfg = cfg.replace("MaxUnits = 3", "MaxUnits = %d" % w["MaxUnits"]).replace("MaxSeqs = 2", "MaxSeqs = %d" % w["MaxSeqs"]).replace("Cross = FALSE", "Cross = %s" % ("TRUE" if w["Cross"] else "FALSE"))
+                sim = tlc.run("Autofill", simcfg, simulate=w["simulate"], depth=w["depth"], seed=ctx.seed, workers=1, timeout=5400)
+                out += _sim_cases(sim)
+            return sim, out
+
+        def _sim_cases(sim):
             out = []
             for p in sorted(glob.glob(os.path.join(sim.sim_dir, "tr*"))):
                 sts = sim_states(p)
@@ -812,7 +820,7 @@ def run(ctx):
                     seqs = [[_norm_unit(u) for u in s] for s in closed_description(st)]
                     if seqs:
                         out.append({"seqs": seqs, "exp": [list(s) for s in st["exp"]]})
-            return sim, out
+            return out
 
         cases = cases + cached_tlc(ctx, "c07_simulate", "random walks (full cross alphabet)", simconsts, produce_sim)
     sub = int(os.environ.get("VERIF_SUBSAMPLE") or 1)  # mutation-sanity runs only: every k-th case (a subset of the full run)
